@@ -219,6 +219,12 @@ class CQN(RLAlgorithm):
         :return: Loss from learning
         :rtype: float
         """
+        # The replay buffers and samplers return TensorDicts
+        if hasattr(experiences, "keys"):
+            experiences = tuple(
+                experiences[key]
+                for key in ("obs", "action", "reward", "next_obs", "done")
+            )
         states, actions, rewards, next_states, dones = experiences
         if self.accelerator is not None:
             actions = actions.to(self.accelerator.device)
